@@ -258,6 +258,17 @@ NOAA14_TLE = ("1 23455U 94089A   00322.04713399  .00000318  00000-0  19705-3 0  
               "2 23455  99.1590 304.5117 0009979  23.1101 337.0518 14.12496633303313\n")
 
 
+def retimed_tle(text, epochs):
+    """the element sets of `text` with their epoch fields replaced (check digit of line 1 recomputed)"""
+    lines = text.splitlines()
+    out = []
+    for k in range(0, len(lines), 2):
+        l1 = lines[k][:18] + epochs[k // 2] + lines[k][32:68]
+        chk = sum(int(c) for c in l1 if c.isdigit()) + l1.count("-")
+        out += [l1 + str(chk % 10), lines[k + 1]]
+    return "\n".join(out) + "\n"
+
+
 def tle_dir(ctx):
     """Directory with TLE_noaa14.txt (2000-322) and TLE_noaa16.txt (2000-265 .. 2007-096)."""
     d = os.path.join(ctx.scratch, "tle")
